@@ -153,8 +153,9 @@ def binding_selftest(run, out, meta, gen, target, corrupt, remove_ev, pick_remov
     """Binding demonstration with a corruption that is decisive for this trace format (nested byte
     tuples): in the first history of `gen` that has an event `target`, (a) corrupt() changes one
     recorded observation of that event, (b) the first event `remove_ev` that is directly followed by a poll is removed; TLC must reject both."""
-    job = [j for j in meta["jobs"] if j["spec"] == "Trace_FileConfig"][0]
-    hists = vf.split_histories(open(os.path.join(out, job["trace"])).read().splitlines())
+    hists = []
+    for job in [j for j in meta["jobs"] if j["spec"] == "Trace_FileConfig"]:       # (the histories are spread over several files)
+        hists += vf.split_histories(open(os.path.join(out, job["trace"])).read().splitlines())
     for h in hists:
         evs = [json.loads(x) for x in h]
         if evs[0].get("gen") != gen:
@@ -244,6 +245,8 @@ def traces(run):
     lay = ex.get("write_back_layouts_judged") or {}
     if len(lay) < 12:
         raise vf.MachineryError("the write-back was recorded for %d of 12 layouts only: %s" % (len(lay), sorted(lay)))
+    if not ex.get("histories_with_reference_values") or not ex.get("edits_the_parser_rejects"):
+        raise vf.MachineryError("no value with a ${name} reference / no file the parser rejects was generated: the value function would be judged on literal values only")
     run.validate(out, meta, max_findings=12)
     binding_selftest(run, out, meta, "edit", "Reload", _corrupt_snap, "Edit")
     binding_selftest(run, out, meta, "wb", "SetValues", _corrupt_after, "SetValues")
@@ -254,7 +257,7 @@ def traces(run):
     run.selftest(out, meta, gen="sys", spec="Trace_FsWrite", field="data")
     run.assumptions += [
         "a reload is taken apart only where it calls out (parser, observers): an edit is imposed after the stat and before the file is read, after the file was read and before anything reload does next, and after the map assignment; an edit BETWEEN two reads of the parser (a file changing while it is being read) is not imposed -- the external writer of the histories replaces the file as a whole",
-        "a parser that fails (FileConfig accepts a foreign one) is not explored: the library's own parser terminates the process on a file it rejects",
+        "a file the library's parser rejects (a circular ${...} reference, a `${` without `}`) is generated in gen edit only: the poll leaves the configuration as it was, tells nobody and remembers the version (ReloadAtomic, Loadable); the histories with write-backs and the reloads taken apart keep to files the parser accepts (steered by the harness's own reading of the expansion rule; the verdicts come from the specification's Expand); a foreign parser that fails for other reasons is not explored",
         "external edits do not interleave with the steps of a write-back (read, merge, write): a lost update between two writers without a lock is outside the property",
         "the layouts: configuration path = regular file | symbolic link (absolute, relative, same directory, chain of two); home = absolute | relative | '.' | symbolic link to a directory | WHATAP_HOME; WHATAP_CONFIG_HOME / WHATAP_CONFIG; AtomicOnDisk is judged on what the configuration path leads to (a write-back that replaced the link itself by the new file would satisfy it); hard links, bind mounts and dangling links are not laid out",
         "the 3 s poll timer is replaced by ReloadNowForVerif (one poll on demand); the constructor runs without the poll goroutine; file modification times are real but set explicitly (os.Chtimes) so that several edits fall into one second",
@@ -263,7 +266,7 @@ def traces(run):
         "keys that left the file keep their last value in memory (the property is silent); blank lines and key lines with an empty value are not compared across a write-back; the order of NEW keys appended by a write-back is free",
         "float getters are judged exactly on a 24-literal reference table (IEEE binary32 patterns) and on malformed text; other well-formed literals only have to return some float",
         "hash-set getters are judged against standard-library CRC-32 / 31*h+b folds of the tokens",
-        "keys that name a variable of the environment the check itself was started in are not generated (the histories set, change and unset variables of their own, named like keys that are absent, present and present-but-empty in the file, and the trace records them: event Env, Reset.penv); values containing ${...} expansions and files the properties parser rejects are not generated",
+        "keys that name a variable of the environment the check itself was started in are not generated (the histories set, change and unset variables of their own, named like keys that are absent, present and present-but-empty in the file, and the trace records them: event Env, Reset.penv); values with ${name} references are generated and judged by the specification's expansion rule (Expand: other keys of the file, else the environment, else nothing; nested; circular / unterminated = the file is rejected as a whole); the names references use are never the subject of an Env event and the pool of variables they name is set before the constructor runs (Reset.penv) -- a referenced variable that changes between a load and a getter is not explored (the value is fixed at load time; the property speaks of the file); values handed to SetValues contain no references",
         "a file that disappears after it was loaded resets the configuration to the library's defaults (what the public ApplyDefault() puts into an empty configuration; recorded once per history) and the observers are NOT told: that is what the code does on purpose and the property, which speaks of the file's key=value pairs, is silent about it; what is required there is that no getter sees a map that is neither the one before nor the defaults",
         "observers are added before the constructor, between polls and -- in the reloads taken apart -- after the stat and after the parse, never from inside an observer's callback (a Go map written while it is iterated may or may not show the new entry); one notification round must call, once per registered name, the observer registered under it when the round runs",
         "the file vanishing between a reload's stat and the parser's read (the parser fails, the poll ends with the map as it was, the next poll finds the file missing: events RlParseFail, RlAbort) and write-backs while the file is away (SetValuesGone: nothing is written) are imposed in-process; on a tree whose parser terminates the process there (C18-read-fatal before 61ee00b) the harness dies with it: machinery failure, and the witness kf_vanish (child process) shows the death as an event without an action",
